@@ -41,6 +41,11 @@ STRING_TWINS = [
     ("nfc", "ﬁn", "fin"), ("adler", "1x2x1", "2x0x2"), ("adler", "bab", "aca"), ("adler", "a1b2c1", "a2b0c2"),
     ("crc", "ABCDEFG", _xor("ABCDEFG")), ("crc", "QRSTUVWXYZ", _xor("QRSTUVWXYZ")), ("swap", "ab", "ba"), ("swap", "group12", "group21"),
     ("swap", "a b", "b a"),
+    # a character that has no UTF-8 encoding (a lone surrogate, as produced by errors="surrogateescape" or by JSON) against the text that a lossy
+    # encoder would make of it.  The unchanged implementation refuses such texts altogether (UnicodeEncodeError — the source-text side of finding
+    # family K3); an implementation that accepts them must still tell them apart
+    ("surrogate", "caf\udcc3\udca9", "café"), ("surrogate", "x\udc80", "x\\udc80"), ("surrogate", "x\udc80", "x?"), ("surrogate", "\ud800y", "\\ud800y"),
+    ("surrogate", "a\udcff", "a\ufffd"), ("surrogate", "a\udc80", "a"),
 ]
 # numeric twins (literal text 1, literal text 2, same type?)
 NUM_TWINS = [("numtype", "1", "1.0"), ("numtype", "0", "0.0"), ("numtype", "1.0", "1"), ("numtype", "1152921504606846976", "1152921504606846976.0"),
@@ -305,7 +310,13 @@ def run(ctx, focuses, n, with_model=True):
     models = [None] * len(plan)
     if with_model and ctx.driver_ok:
         try:
-            reqs = [{"op": "run", "text": (t1 if f == "invalid" else t2), "envs": [common.enc_env(e) for e in envs]} for f, _, t1, t2, envs in plan]
+            def _enc(t):
+                try:
+                    t.encode("utf-8")
+                    return t
+                except UnicodeEncodeError:
+                    return 'def placeholder { return "a" weighted 1 }'       # (Lean strings hold no lone surrogates)
+            reqs = [{"op": "run", "text": _enc(t1 if f == "invalid" else t2), "envs": [common.enc_env(e) for e in envs]} for f, _, t1, t2, envs in plan]
             models = common.run_driver_parallel(reqs, jobs=8)
         except Exception as ex:  # noqa
             ctx.obligation_breaks.append({"what": "model-driver-run", "detail": repr(ex)[:300]})
@@ -317,6 +328,9 @@ def run(ctx, focuses, n, with_model=True):
             continue
         try:
             ev, _ = common.quiet(lambda: ExperimentEvaluator(t1))
+        except UnicodeEncodeError:
+            ctx.count("twin:text-with-lone-surrogate-refused")
+            continue
         except Exception as ex:  # noqa
             ctx.violation(f"twin slice: a grammatical experiment does not compile ({common.classify_exc(ex)}): {t1[:160]!r}", {"text": t1})
             continue
@@ -335,6 +349,10 @@ def run(ctx, focuses, n, with_model=True):
             elif after[:4] != before:
                 ctx.violation("a rejected recompile changed what the evaluator answers", dict(hist, before=before, after=after[:4]))
             continue
+        try:
+            t2.encode("utf-8"), t1.encode("utf-8")
+        except UnicodeEncodeError:
+            m = None                      # the model has no answer for such a text
         fresh = _fresh(t2, envs)
         if isinstance(fresh, dict):
             # T2 does not compile on its own (e.g. a weight vector the code rejects): nothing to compare
